@@ -40,6 +40,7 @@ type Profile struct {
 	ModPath           string // module-relative import path prefix of the world (default example.com/w, own go.mod)
 	GenericAliasBoost int    // additional % of instantiated-generic interfaces declared as generic alias
 	TwinPct           int    // additional % of worlds with a build-constrained twin interface
+	HugePct           int    // % of interfaces with several hundred methods
 	DiffAliasPct      int    // % of worlds with an extra source file importing used packages under other aliases
 	MockLikeParamPct  int    // chance (per argument) of a mock type named like a parameter of the interface
 	SameAliasPct      int    // % of aliased imports that reuse an alias another file gave to a DIFFERENT package
@@ -199,8 +200,12 @@ func pkgNameForDir(dir string) string {
 		return "typ"
 	case base == "go-x" || base == "x-go":
 		return "x" // same package name, paths equal after sanitising
-	case base == "lib-go" || base == "go-lib":
+	case base == "lib-go" || base == "go-lib" || base == "l-ib":
 		return "lib"
+	case base == "x_" || base == "go-x-go":
+		return "x"
+	case dir == "b.c/x":
+		return "x"
 	}
 	r := strings.NewReplacer("-", "", ".", "", "_", "")
 	return r.Replace(base)
@@ -227,8 +232,8 @@ var tparamNamesOdd = []string{"t", "Id", "id", "elem", "k", "tKey", "Url"}
 var idiomNames = []string{"ctx", "id", "name", "req", "w", "r", "err", "n", "s", "b", "ok", "key", "val", "x", "y", "data", "opts", "value"}
 var genOutNames = []string{"s", "s1", "s2", "n", "n1", "n2", "fn", "val", "ifaceVal", "v", "err", "f", "b", "b1", "strings", "ints", "errs", "stringToInt", "intCh"}
 var suffixNames = []string{"sMoqParam", "sOut", "nOut", "errOut", "ctxMoqParam", "s1Out", "bOut", "vOut", "ioMoqParam", "syncMoqParam"}
-var oddNames = []string{"__", "___", "_1", "über", "Äh", "ñu", "日本", "x_1", "_x", "a1", "X_", "X", "Ctx", "aB", "a_b", "ID", "Id", "iD", "URL", "uRL", "Url", "http", "HTTP", "Http", "json", "xml", "uuid", "uid", "ip", "vm", "utf8", "Utf8"}
-var reservedNames = []string{"mock", "callInfo", "string", "nil", "append", "panic", "int", "error", "any", "bool", "len", "true", "calls"}
+var oddNames = []string{"db", "Db", "DB", "ts", "Ts", "gid", "sip", "rtp", "amqp", "Amqp", "os", "io", "__", "___", "_1", "über", "Äh", "ñu", "日本", "x_1", "_x", "a1", "X_", "X", "Ctx", "aB", "a_b", "ID", "Id", "iD", "URL", "uRL", "Url", "http", "HTTP", "Http", "json", "xml", "uuid", "uid", "ip", "vm", "utf8", "Utf8"}
+var reservedNames = []string{"mock", "callInfo", "string", "nil", "append", "panic", "int", "error", "any", "bool", "len", "true", "calls", "byte", "rune", "uint8", "int32", "float64", "uintptr", "comparable", "iota", "new", "make", "cap", "copy", "false"}
 
 // New builds a generator bound to a rapid test.
 func New(t *rapid.T, p Profile, open map[string]bool, excl map[string]int) *G {
@@ -294,11 +299,15 @@ func (g *G) genDeps() {
 	// now and then: three packages of one name whose paths are equal after sanitising (last-resort numbered aliases)
 	var forced []string
 	if g.P.Conflict && g.Chance(10) && !g.Open["F-A"] {
-		forced = append(forced, g.pickList([][]string{{"go-lib", "lib", "lib-go"}, {"go-x", "x", "x-go"}, {"b-c/x", "bc/x", "b_c/x"}})...)
-		if n < 4 {
-			n = 4
+		forced = append(forced, g.pickList([][]string{{"go-lib", "lib", "lib-go"}, {"go-x", "x", "x-go"}, {"b-c/x", "bc/x", "b_c/x"},
+			{"go-lib", "lib", "lib-go", "l-ib"}, {"go-x", "x", "x-go", "x_", "go-x-go"}, {"b-c/x", "bc/x", "b_c/x", "b.c/x"}})...)
+		if n < len(forced)+1 {
+			n = len(forced) + 1
 		}
 		g.label("import:sanitise-equal-triple")
+		if len(forced) > 3 {
+			g.label("import:sanitise-equal-quadruple")
+		}
 	}
 	for len(g.deps) < n {
 		dir := g.Pick(pool)
@@ -610,7 +619,7 @@ func (g *G) namedCands(needCmp bool) []namedCand {
 func (g *G) stdCands(needCmp bool) []namedCand {
 	var cs []namedCand
 	for _, p := range StdPkgs {
-		if g.P.ExecSafe && (p.Path == "net/http" || p.Path == "html/template" || p.Path == "text/template") {
+		if g.P.ExecSafe && (p.Path == "html/template" || p.Path == "text/template") {
 			continue
 		}
 		for _, d := range p.Decls {
@@ -714,6 +723,9 @@ func (g *G) ty(c tyCtx) *Ty {
 			// big by-value arrays (copied into the record)
 			n = []int{64, 100, 4096}[g.Int(0, 2)]
 			e = basic(g.Pick([]string{"byte", "int", "string"}), true)
+			if n == 4096 && e.Name == "string" {
+				e = basic("byte", true) // a channel element (and a few other things) must stay below 64 kB for the compiler
+			}
 			g.label("type:big-array")
 		}
 		return &Ty{K: KArray, N: n, Elem: e, Cmp: e.Cmp}
@@ -1170,6 +1182,10 @@ func (g *G) sig(depth int, inner bool) *Sig {
 		maxR = 2
 	}
 	nr := g.Int(0, maxR)
+	if !inner && g.Chance(4) {
+		nr = g.Int(maxR+1, maxR+4) // long result lists
+		g.label("sig:many-results")
+	}
 	if ctxFirst && g.Chance(60) {
 		nr = 1
 	}
@@ -1460,6 +1476,15 @@ func (g *G) genTParams(skipEnsure bool) ([]TParamDecl, bool) {
 				switch g.Int(0, 3) {
 				case 0: // comparable plus methods: not a method set, yet it has methods
 					tp.ConSrc, tp.Kind = g.Pick([]string{"interface{ comparable; String() string }", "interface{ comparable; error }", "interface{ String() string; comparable }"}), "mixed-comparable"
+				case 2: // a type set plus a method whose signature mentions an imported package
+					if iop := StdPkg("io"); iop != nil {
+						tmpl := g.Pick([]string{"interface{ comparable; WriteKey(w \x00) (int, error) }", "interface{ ~int | ~string; EncodeTo(w \x00) error }", "interface{ ~[]byte; WriteTo(w \x00) (int64, error) }"})
+						tp.Terms = []*Ty{{K: KBasic, Name: tmpl, Elem: &Ty{K: KNamed, Name: "Writer", Pkg: iop, Cmp: true}}}
+						tp.ConSrc, tp.Kind = "", "mixed-method-mentions-import"
+						if strings.Contains(tmpl, "[]byte") {
+							tp.Cmp = false
+						}
+					}
 				case 1: // a named type-set constraint plus a method
 					var cs []namedCand
 					for _, p := range append(append([]*Pkg{}, g.deps...), g.src) {
@@ -1662,6 +1687,16 @@ func (g *G) genIface(cfgSkipEnsure bool) *Iface {
 	if nm == 0 && len(it.Embeds) == 0 && g.Chance(70) {
 		nm = 1
 	}
+	if g.Chance(3) {
+		nm = g.Int(17, 24) // wide interfaces
+		g.label("iface:many-methods")
+	}
+	huge := false
+	if g.Chance(g.P.HugePct) {
+		nm = g.Int(520, 700) // SDK-sized: the output exceeds a megabyte
+		huge = true
+		g.label("iface:huge")
+	}
 	for i := 0; i < nm; i++ {
 		var name string
 		for {
@@ -1678,13 +1713,22 @@ func (g *G) genIface(cfgSkipEnsure bool) *Iface {
 			}
 		}
 		it.AllMeths[name] = true
+		if huge && i > 8 {
+			name = fmt.Sprintf("Op%04d", i)
+			it.AllMeths[name] = true
+			it.Methods = append(it.Methods, Meth{Name: name, Sig: &Sig{Params: []Param{{Name: "id", T: basic("string", true)}, {Name: "n", T: basic("int", true)}}, Results: []Param{{T: basic("error", true)}}}})
+			continue
+		}
 		it.Methods = append(it.Methods, Meth{Name: name, Sig: g.sig(0, false)})
 	}
 	if len(it.Methods) > 0 && g.Chance(3) {
 		// a method named like a member the mock type generates for another method (accessor, function field,
 		// reset method): such a mock cannot compile, moq has to refuse it (or, where nothing clashes, cope)
 		base := it.Methods[g.Int(0, len(it.Methods)-1)].Name
-		cand := g.Pick([]string{base + "Calls", base + "Func", "Reset" + base + "Calls", "ResetCalls", "Reset"})
+		cand := g.Pick([]string{base + "Calls", base + "Func", "Reset" + base + "Calls", "ResetCalls", "Reset", "lock" + base, "calls"})
+		if (strings.HasPrefix(cand, "lock") || cand == "calls") && !g.inPlace {
+			cand = base + "Calls" // unexported methods only exist for mocks generated in place
+		}
 		if !it.AllMeths[cand] {
 			it.AllMeths[cand] = true
 			it.Methods = append(it.Methods, Meth{Name: cand, Sig: g.sig(0, false)})
